@@ -155,7 +155,8 @@ func (r *lfRig) genCfg(fail string) *lfCfg {
 			fmt.Fprintf(&b, "\tsimcb %s\n", cfg.label)
 			fmt.Fprintf(&b, "\tlog / %s \"{status} {uri}\" {\n\t\trotate_disable\n\t}\n", filepath.Join(r.tmp, cfg.label, "access.log"))
 			if cfg.hasOn {
-				b.WriteString("\ton shutdown /bin/true\n")
+				// (two hooks: a failed attempt must take back every one it registered)
+				b.WriteString("\ton shutdown /bin/true\n\ton certrenew /bin/true\n")
 			}
 		}
 		if s.auth {
